@@ -66,7 +66,7 @@ type Exec struct {
 	callOrd map[ssa.Instruction]string
 	SafetyOnly bool
 	curPos string
-	smokeSeen map[string]bool
+	smokeCount map[string]int
 	Inlined map[string]bool
 	epochSeq int
 	Assumptions map[string]bool
@@ -77,7 +77,7 @@ func NewExec(p *Prog, fn *ssa.Function) *Exec {
 		MaxStates: 60000, labelCount: map[string]int{}, instrLabel: map[ssa.Instruction]string{},
 		DefaultExterns: map[string]bool{}, UsedExterns: map[string]bool{}, UsedContracts: map[string]bool{},
 		strLits: map[string]string{}, retOrd: map[*ssa.Return]int{}, callOrd: map[ssa.Instruction]string{},
-		smokeSeen: map[string]bool{}, Inlined: map[string]bool{}, Assumptions: map[string]bool{}}
+		smokeCount: map[string]int{}, Inlined: map[string]bool{}, Assumptions: map[string]bool{}}
 	x.TM = NewTypeMap(x.D)
 	x.FC = p.Contracts[fn.String()]
 	if x.FC != nil {
@@ -114,10 +114,10 @@ func (x *Exec) emit(st *State, kind, detail, goal string, clause string) {
 
 func (x *Exec) emitSmoke(st *State, where string) {
 	name := x.short + "#smoke[" + where + "]"
-	if x.smokeSeen[name] {
+	if x.smokeCount[name] >= 6 {
 		return
 	}
-	x.smokeSeen[name] = true
+	x.smokeCount[name]++
 	o := &Obligation{Name: name, Kind: "smoke", Func: x.short, Assume: append([]string(nil), st.PC...), Goal: "false",
 		Smoke: true, Decls: x.D, Pos: x.curPos}
 	x.Obls = append(x.Obls, o)
@@ -298,6 +298,9 @@ func (x *Exec) assumeTypeInv(st *State, v Value, pre bool) {
 			return
 		}
 		s := x.TM.Sort(v.Typ)
+		if u.NumFields() > 8 {
+			return
+		}
 		for i := 0; i < u.NumFields(); i++ {
 			ft := u.Field(i).Type()
 			switch types.Unalias(ft).Underlying().(type) {
@@ -1149,12 +1152,14 @@ func (x *Exec) equal(st *State, a, b Value, ins ssa.Instruction) string {
 		return Eq(a.Term, b.Term)
 	}
 	if a.Sort == SSlice {
-		// only comparison with nil is legal
-		o := a
+		// Go only allows comparison with nil; contracts may compare slice headers (identity)
 		if isNilSlice(a.Term) {
-			o = b
+			return Eq(app("sbase", b.Term), "0")
 		}
-		return Eq(app("sbase", o.Term), "0")
+		if isNilSlice(b.Term) {
+			return Eq(app("sbase", a.Term), "0")
+		}
+		return Eq(a.Term, b.Term)
 	}
 	return Eq(a.Term, b.Term)
 }
